@@ -20,7 +20,9 @@ use std::sync::{atomic::{AtomicU32, AtomicU64, Ordering::SeqCst}, Arc};
 use std::time::Duration;
 
 #[derive(Clone, Debug, PartialEq, Eq)]
-pub enum Req { CancelAll, End(Vec<usize>) }
+pub enum Req { CancelAll, End(Vec<usize>),
+    /// `gracefully_end_all_streams(unbounded)` at channel level (C06: returns only after everything accepted before was yielded and every stream ended)
+    EndAll }
 
 #[derive(Clone, Debug)]
 pub struct Cfg { pub kind: Kind, pub n: usize, pub m: usize, pub streams: usize, pub req: Req, pub entries: Vec<Entry>, pub per_prod: u32, pub prefill: u32, pub delay: u32, pub fresh_wakers: bool,
@@ -29,7 +31,7 @@ pub struct Cfg { pub kind: Kind, pub n: usize, pub m: usize, pub streams: usize,
     /// a targeted stream's thread creates a replacement stream (recycled id) right after dropping the ended one
     pub replace: bool }
 impl Cfg {
-    pub fn targeted(&self, i: usize) -> bool { match &self.req { Req::CancelAll => true, Req::End(v) => v.contains(&i) } }
+    pub fn targeted(&self, i: usize) -> bool { match &self.req { Req::CancelAll | Req::EndAll => true, Req::End(v) => v.contains(&i) } }
     pub fn json(&self) -> J {
         J::obj().with("kind", J::s(self.kind.name())).with("N", J::i(self.n as i64)).with("M", J::i(self.m as i64)).with("streams", J::i(self.streams as i64))
             .with("request", J::s(format!("{:?}", self.req))).with("producers", J::Arr(self.entries.iter().map(|e| J::s(e.name())).collect()))
@@ -40,13 +42,13 @@ impl Cfg {
 pub const PAUSE_SITES: &[u32] = &[rv::MS_AFTER_CONSUME_NONE, rv::MS_AFTER_KEEP_RUNNING, rv::MS_BEFORE_PENDING, rv::SM_REGISTER_BEFORE_COMPARE, rv::SM_REGISTER_BEFORE_SELF_WAKE,
     rv::SM_CANCEL_AFTER_FLAG, rv::SM_CANCEL_ALL_EACH, rv::SM_WAKE_BEFORE_READ, rv::SM_CREATE_AFTER_FLAG, rv::AM_CONSUME_AFTER_READ, rv::SM_DROPPED_AFTER_WAKER, rv::SM_DROPPED_AFTER_COUNTERS];
 
-pub fn draw_cfg(rng: &mut Rng, only: Option<&str>) -> Cfg {
+pub fn draw_cfg(rng: &mut Rng, only: Option<&str>, end_all: bool) -> Cfg {
     let kinds: Vec<Kind> = chan::ALL_KINDS.iter().copied().filter(|k| only.map(|o| k.name() == o).unwrap_or(true)).filter(|k| !(cfg!(miri) && *k == Kind::MultiMmap)).collect();   // (Miri cannot interpret file-backed mmap)
     let kind = *rng.pick(&kinds);
     let cfgs: Vec<(usize, usize)> = chan::cfgs_for(kind, false).into_iter().filter(|c| c.1 <= 4 && (c.0 == 0 || c.0 >= 4) && c.0 <= 16).collect();
     let (n, m) = *rng.pick(&cfgs);
     let streams = 1 + rng.below(m.min(4) as u64) as usize;
-    let req = if rng.chance(1, 2) { Req::CancelAll } else {
+    let req = if end_all { Req::EndAll } else if rng.chance(1, 2) { Req::CancelAll } else {
         let mut v: Vec<usize> = (0..streams).filter(|_| rng.chance(1, 2)).collect();
         if v.is_empty() { v.push(rng.below(streams as u64) as usize) }
         Req::End(v)
@@ -84,6 +86,7 @@ pub fn one_run(cfg: &Cfg, rc: &RunCfg, acc: &mut Acc) -> (Option<J>, u64, bool) 
     let req_returned = Arc::new(AtomicU64::new(0));
     let req_called = Arc::new(AtomicU64::new(0));
     let end_answers = Arc::new(std::sync::Mutex::new(Vec::<(usize, bool)>::new()));
+    let end_all_snapshot = Arc::new(std::sync::Mutex::new(None::<(u32, bool)>));
     let mut bodies: Vec<Body> = Vec::new();
     let prod_done = Arc::new(AtomicU32::new(0));
     let nprod = cfg.entries.len() as u32;
@@ -115,16 +118,18 @@ pub fn one_run(cfg: &Cfg, rc: &RunCfg, acc: &mut Acc) -> (Option<J>, u64, bool) 
         bodies.push(Box::new(move || { let _g = OnExit(Some(move || { d.fetch_add(1, SeqCst); pd.fetch_add(1, SeqCst); })); inner() }));
     }
     {
-        let (ch, d, rr, rcall, cfg2, ids, ea) = (ch.clone(), done.clone(), req_returned.clone(), req_called.clone(), cfg.clone(), stream_ids.clone(), end_answers.clone());
+        let (ch, d, rr, rcall, cfg2, ids, ea, snap) = (ch.clone(), done.clone(), req_returned.clone(), req_called.clone(), cfg.clone(), stream_ids.clone(), end_answers.clone(), end_all_snapshot.clone());
         bodies.push(Box::new(move || {
             let _g = OnExit(Some(move || { d.fetch_add(1, SeqCst); }));
             for _ in 0..cfg2.delay { sched::point() }
             rcall.store(stamp(), SeqCst);
             match &cfg2.req {
                 Req::CancelAll => ch.cancel_all(),
+                Req::EndAll => { let left = block_on_paused(ch.end_all(Duration::ZERO)); ea.lock().unwrap().push((usize::MAX, left == 0)); sched::op_done() }
                 Req::End(v) => for i in v { let ok = block_on_paused(ch.end_stream(ids[*i], Duration::ZERO)); ea.lock().unwrap().push((*i, ok)); sched::op_done() },
             }
             rr.store(stamp(), SeqCst);
+            if cfg2.req == Req::EndAll { *snap.lock().unwrap() = Some((ch.running(), ch.is_open())) }
         }));
     }
     let rep = sched::run(rc, bodies);
@@ -166,7 +171,25 @@ pub fn one_run(cfg: &Cfg, rc: &RunCfg, acc: &mut Acc) -> (Option<J>, u64, bool) 
             if l.empties.lock().unwrap().iter().any(|e| e.1 < req_called.load(SeqCst)) { parked_at_request += 1 }
         }
         if parked_at_request > 0 { acc.count("targeted_streams_that_had_parked_before_the_request", parked_at_request) }
-        for (i, ok) in end_answers.lock().unwrap().iter() { if !ok { probs.push(("end_stream_false".into(), format!("gracefully_end_stream(stream {i}, unbounded timeout) answered false"))) } }
+        for (i, ok) in end_answers.lock().unwrap().iter() { if !ok { probs.push(("end_stream_false".into(), if *i == usize::MAX { "gracefully_end_all_streams(unbounded timeout) reported streams still running".to_string() } else { format!("gracefully_end_stream(stream {i}, unbounded timeout) answered false") })) } }
+        if cfg.req == Req::EndAll && t_ret > 0 {
+            // C06 at channel level: when the request returns, every event accepted before the call has been yielded (Uni: by some stream; Multi: by every
+            // listener), every stream has ended, none is running, the channel is no longer open
+            let t_call = req_called.load(SeqCst);
+            let mut before: Vec<u64> = accepted_prefill.clone();
+            for l in &plogs { for c in l.calls.lock().unwrap().iter() { if c.3 && c.2 < t_call { before.push(c.0) } } }
+            acc.count("events_accepted_before_gracefully_end_all_streams", before.len() as u64);
+            let yielded_by = |l: &Arc<ConsLog>, id: u64| l.yields.lock().unwrap().iter().any(|y| y.0 == id && y.3 < t_ret);
+            for id in &before {
+                let ok = if cfg.kind.is_multi() { clogs.iter().all(|l| yielded_by(l, *id)) } else { clogs.iter().any(|l| yielded_by(l, *id)) };
+                if !ok { probs.push(("end_all_returned_before_delivery".into(), format!("gracefully_end_all_streams(unbounded) returned (stamp {t_ret}) although event {id}, accepted before the call (stamp {t_call}), had not been yielded{}", if cfg.kind.is_multi() { " by every listener" } else { "" }))) }
+            }
+            let snap = end_all_snapshot.lock().unwrap().clone();
+            if let Some((running, open)) = snap {
+                if running != 0 { probs.push(("running_after_end_all".into(), format!("right after gracefully_end_all_streams(unbounded) returned running_streams_count() was {running}"))) }
+                if open { probs.push(("open_after_end_all".into(), "right after gracefully_end_all_streams(unbounded) returned is_channel_open() was still true".into())) }
+            }
+        }
         // a stream that was never told to end must not answer end-of-stream: the untargeted ones, and the replacements of ended ones
         for (i, l) in clogs.iter().enumerate() { if !cfg.targeted(i) && l.ended.load(SeqCst) { probs.push(("untargeted_ended".into(), format!("stream {i}, which was not told to end, answered end-of-stream"))) } }
         for (i, l) in rlogs.iter().enumerate() {
@@ -218,7 +241,7 @@ pub fn one_run(cfg: &Cfg, rc: &RunCfg, acc: &mut Acc) -> (Option<J>, u64, bool) 
     }
     let v = if probs.is_empty() { None } else {
         let mut sigs: Vec<J> = Vec::new();
-        for (a, _) in &probs { let s = J::obj().with("anomaly", J::s(a)).with("kind", J::s(cfg.kind.name())).with("request", J::s(if cfg.req == Req::CancelAll { "cancel_all_streams" } else { "gracefully_end_stream" })); if !sigs.iter().any(|x| x.to_string() == s.to_string()) { sigs.push(s) } }
+        for (a, _) in &probs { let s = J::obj().with("anomaly", J::s(a)).with("kind", J::s(cfg.kind.name())).with("request", J::s(match cfg.req { Req::CancelAll => "cancel_all_streams", Req::EndAll => "gracefully_end_all_streams", _ => "gracefully_end_stream" })); if !sigs.iter().any(|x| x.to_string() == s.to_string()) { sigs.push(s) } }
         Some(J::obj().with("what", J::s(probs.iter().map(|p| p.1.clone()).take(5).collect::<Vec<_>>().join("; "))).with("sigs", J::Arr(sigs)).with("config", cfg.json())
             .with("strategy", J::s(rc.strategy.describe())).with("outcome", rep.outcome_json())
             .with("yielded", J::Arr(clogs.iter().map(|l| crate::drive::ids_json(&l.ids())).collect())))
@@ -230,7 +253,7 @@ pub fn run(args: &Args, acc: &mut Acc) { run_loop(args, acc, single) }
 
 fn single(args: &Args, acc: &mut Acc, seed: u64, verbose: bool) {
     let mut rng = Rng::new(seed);
-    let cfg = draw_cfg(&mut rng, args.only.as_deref());
+    let cfg = draw_cfg(&mut rng, args.only.as_deref(), args.get("request") == Some("end_all"));
     let nthreads = cfg.streams + cfg.entries.len() + 1;
     let mut rc = match args.lane {
         Lane::Ser => RunCfg::ser(seed, draw_strategy(&mut rng, nthreads, PAUSE_SITES, 250)),
@@ -239,7 +262,7 @@ fn single(args: &Args, acc: &mut Acc, seed: u64, verbose: bool) {
     rc.trace = verbose && args.get("trace").is_some();
     let (violation, hash, inconclusive) = one_run(&cfg, &rc, acc);
     acc.count(&format!("runs[{}]", cfg.kind.name()), 1);
-    acc.count(if cfg.req == Req::CancelAll { "requests[cancel_all_streams]" } else { "requests[gracefully_end_stream]" }, 1);
+    acc.count(match cfg.req { Req::CancelAll => "requests[cancel_all_streams]", Req::EndAll => "requests[gracefully_end_all_streams]", _ => "requests[gracefully_end_stream]" }, 1);
     if inconclusive { return }
     acc.nontrivial(mix(hash, cfg.kind as u64 * 131 + cfg.n as u64 * 17 + cfg.m as u64 + ((cfg.streams as u64) << 20) + ((cfg.delay as u64) << 30)));
     acc.sample(3, || J::obj().with("config", cfg.json()).with("strategy", J::s(rc.strategy.describe())));
